@@ -334,6 +334,13 @@ def cancel_mass():
     return Game("cancel_mass", [PR, PR, PR, PR], [[(2e-16, 1), (1 - 2e-16, 3)], [(1, 2)], [(1, 2)], [(1, 3)]], [2], [10, 100, 0, 0])
 
 
+def p2_selfloop():
+    """a Player 2 state that may wait on a self-loop forever (value 0) next to an action of positive value"""
+    return Game("p2_selfloop", [P1, PR, P2, PR, PR, PR],
+                [[("safe", 1), ("risky", 2)], [(0.5, 4), (0.5, 5)], [("wait", 2), ("go", 3)], [(0.9, 4), (0.1, 5)], [(1, 4)], [(1, 5)]], [4],
+                [0, 0, 0, 0, 0, 0], stopping=False)
+
+
 def slow_chain():
     """KF-1: self-loop of probability 1-1e-7; value iteration stops far from the value"""
     return Game("slow_chain", [PR, PR], [[(1 - 1e-7, 0), (1e-7, 1)], [(1, 1)]], [1], [0, 0])
